@@ -665,3 +665,41 @@ Proof.
     exfalso. exact (packet_nofuel _ Ep).
   - discriminate.
 Qed.
+
+(* ---- a traced caller context: the span is on the wire from FeatureOpenTelemetry on, and only then ---- *)
+Lemma encode_fields_project v l : forall xs,
+  encode_fields v l (project v l xs) = encode_fields v l xs.
+Proof.
+  induction l as [|f l IH]; intros xs; [destruct xs; reflexivity|].
+  destruct xs as [|x xs]; [reflexivity|].
+  cbn [project encode_fields]. rewrite IH.
+  destruct (gate_in v (fgates f)); reflexivity.
+Qed.
+
+Definition set_span (q : cquery) (sp : option span) : cquery :=
+  {| cq_id := cq_id q ; cq_body := cq_body q ; cq_quota := cq_quota q ; cq_inituser := cq_inituser q ;
+     cq_settings := cq_settings q ; cq_params := cq_params q ; cq_span := sp |}.
+
+Lemma project_info_span_blind c q sp v :
+  gate v FeatureOpenTelemetry = false ->
+  project v L_ClientInfo (q_info (mk_query c (set_span q sp))) = project v L_ClientInfo (q_info (mk_query c q)).
+Proof.
+  intros Hg. unfold gate in Hg.
+  unfold mk_query, set_span, L_ClientInfo. cbn [q_info cq_id cq_inituser cq_quota cq_span].
+  repeat (cbn [project]; f_equal).
+  unfold gate_in. simpl fgates. cbn [forallb]. rewrite Hg. reflexivity.
+Qed.
+
+Lemma query_bytes_span_blind c q sp :
+  gate (vN (c_ver c)) FeatureOpenTelemetry = false ->
+  query_bytes c (set_span q sp) = query_bytes c q.
+Proof.
+  intros Hg. unfold query_bytes, encode_Query. f_equal.
+  assert (Hi : encode_ClientInfo (vN (c_ver c)) (q_info (mk_query c (set_span q sp)))
+             = encode_ClientInfo (vN (c_ver c)) (q_info (mk_query c q))).
+  { unfold encode_ClientInfo.
+    rewrite <- (encode_fields_project _ _ (q_info (mk_query c (set_span q sp)))).
+    rewrite <- (encode_fields_project _ _ (q_info (mk_query c q))).
+    now rewrite project_info_span_blind. }
+  rewrite Hi. reflexivity.
+Qed.
